@@ -5,17 +5,22 @@ configuration against its symbolic export, whole circuits against `to_sympy(subs
 import itertools
 import math
 import multiprocessing as mp
+import os
 import sys
 
 sys.path.insert(0, __file__.rsplit("/bounded/", 1)[0])
 from bounded.common import Result, guarded  # noqa: E402
+from bounded.c02_eval import evaluate  # noqa: E402
+
+EVAL_SRC = open(os.path.join(os.path.dirname(os.path.abspath(__file__)), "c02_eval.py")).read()
 
 INF = float("inf")
 RTOL = 1e-9
-OVERFLOWS = (ZeroDivisionError, OverflowError, FloatingPointError)   # double-precision range exhausted (python floats raise instead of returning inf)
 LIMIT_RTOL = 1e-6
 N_FREQ = 7
-DPS = 40
+ILL_CONDITIONED = 1e5     # condition number above which a 1e-9 comparison of double-precision results is meaningless
+OVERFLOWS = (ZeroDivisionError, OverflowError, FloatingPointError)   # python floats raise instead of returning inf/nan
+SLOTS = ("X_1", "X_2", "Z_A", "Z_B", "Zeta")
 
 
 def freqs():
@@ -24,6 +29,71 @@ def freqs():
 
 
 # ------------------------------------------------------------------ helpers
+def finite(z):
+    return math.isfinite(z.real) and math.isfinite(z.imag)
+
+
+def rel(z, ref):
+    return abs(z - ref) / abs(ref) if ref != 0 else abs(z)
+
+
+def condition_number(expr, values):
+    """sum over the inputs of |relative change of the expression| / |relative change of the input|"""
+    import mpmath
+    base, _ = evaluate(expr, values)
+    if not finite(base) or base == 0:
+        return INF
+    total = 0.0
+    with mpmath.workdps(60):
+        eps = mpmath.mpf(2) ** -40
+        for k, v in values.items():
+            if v == 0:
+                continue
+            shifted = dict(values)
+            shifted[k] = mpmath.mpf(v) * (1 + eps)
+            z, _ = evaluate(expr, shifted)
+            if not finite(z):
+                return INF
+            total += abs(z - base) / abs(base) / float(eps)
+    return total
+
+
+def numeric_point(obj, f):
+    """impedance of obj at one frequency: (complex or nan, exception name or None, exception object when unexpected)"""
+    import numpy as np
+    from pyimpspec.exceptions import ImpedanceError
+    try:
+        return complex(obj.get_impedances(np.array([f]))[0]), None, None
+    except ImpedanceError as ex:
+        return complex("nan"), type(ex).__name__, None
+    except OVERFLOWS as ex:
+        return complex("nan"), type(ex).__name__, None
+    except NotImplementedError:
+        return complex("nan"), "NotImplementedError", None
+    except Exception as ex:  # noqa
+        return complex("nan"), "unexpected:" + type(ex).__name__, ex
+
+
+def judge(z, expr, values):
+    """compare an implementation value with the reference expression at one point.
+    returns (verdict, ref, detail); verdict in pass / trivial:<why> / mismatch / not-finite"""
+    ref, out_of_range = evaluate(expr, values)
+    if not finite(z):
+        if not finite(ref) or out_of_range:
+            return "trivial:overflow-in-both", ref, 0.0
+        return "not-finite", ref, INF
+    if not finite(ref):
+        return "trivial:reference-singular-or-outside-double-range", ref, 0.0
+    d = rel(z, ref)
+    if d <= RTOL:
+        return "pass", ref, d
+    if out_of_range:
+        return "trivial:intermediate-outside-double-range", ref, d
+    if condition_number(expr, values) > ILL_CONDITIONED:
+        return "trivial:ill-conditioned", ref, d
+    return "mismatch", ref, d
+
+
 def param_ranges(cls):
     """finite sampling range per parameter, inside the class limits: ('exp', a, b) uniform, ('log', a, b) log-uniform,
     ('sym', a, b) log-uniform magnitude with either sign (parameters without a lower limit)"""
@@ -37,7 +107,8 @@ def param_ranges(cls):
             out[k] = ("sym", 1e-9, 1e9 if upper == INF else upper)
         else:
             out[k] = ("log", lower if lower > 0.0 else 1e-12, 1e12 if upper == INF else upper)
-        assert lower <= out[k][1] <= out[k][2] <= upper or out[k][0] == "sym"
+            if not lower <= out[k][1] <= out[k][2] <= upper:
+                raise AssertionError(f"harness: sampling range of {cls}.{k} leaves the limits")
     return out
 
 
@@ -63,120 +134,151 @@ def corner_params(ranges):
         yield dict(zip(keys, map(float, combo)))
 
 
-def equation_functions(cls):
-    """(mpmath evaluator, numpy double evaluator) of the documented equation string, argument order keys + [f]"""
-    import numpy as np
+def equation_expr(cls):
+    """the documented equation as written (unevaluated tree)"""
     import sympy
-    expr = sympy.sympify(cls._equation)
-    keys = list(cls.get_default_values())
-    syms = [sympy.Symbol(k) for k in keys] + [sympy.Symbol("f")]
-    if not expr.free_symbols <= set(syms):
-        raise AssertionError(f"harness: unexpected symbols in the equation of {cls}: {expr.free_symbols}")
-    f_mp = sympy.lambdify(syms, expr, modules="mpmath")
-    f_np = sympy.lambdify(syms, expr, modules=[{"coth": lambda x: 1 / np.tanh(x)}, "numpy"])
-    return keys, f_mp, f_np
+    expr = sympy.sympify(cls._equation, evaluate=False)
+    names = {s.name for s in expr.free_symbols}
+    keys = set(cls.get_default_values()) | {"f"}
+    if not names <= keys:
+        raise AssertionError(f"harness: unexpected symbols in the equation of {cls}: {names - keys}")
+    return expr
 
 
-def mp_eval(f_mp, keys, p, f):
-    import mpmath
-    mpmath.mp.dps = DPS
-    try:
-        return complex(f_mp(*[mpmath.mpf(p[k]) for k in keys], mpmath.mpf(float(f))))
-    except (ZeroDivisionError, OverflowError, ValueError):
-        return complex("nan")
+class _CircuitView:
+    """adapter: Circuit.get_impedances / Circuit.to_sympy with the constructor source of the underlying connection"""
+    def __init__(self, circuit, con):
+        self.circuit, self.con = circuit, con
+
+    def get_impedances(self, f):
+        return self.circuit.get_impedances(f)
+
+    def to_sympy(self, substitute):
+        return self.circuit.to_sympy(substitute=substitute)
 
 
-def np_eval(f_np, keys, p, f):
-    import numpy as np
-    try:
-        with np.errstate(all="ignore"):
-            z = f_np(*[np.float64(p[k]) for k in keys], np.array([f], dtype=float))
-        return complex(np.asarray(z, dtype=complex).ravel()[0])
-    except (ZeroDivisionError, OverflowError, FloatingPointError):
-        return complex("nan")
+def py_src(obj):
+    """python source that rebuilds an element/connection (values only) through the public constructors"""
+    from pyimpspec import Series, Parallel
+    from pyimpspec.circuit.base import Container
+    if obj is None:
+        return "None"
+    if isinstance(obj, _CircuitView):
+        return "Circuit(" + py_src(obj.con) + ")"
+    if isinstance(obj, (Series, Parallel)):
+        return type(obj).__name__ + "([" + ", ".join(py_src(e) for e in obj._elements) + "])"
+    kw = [f"{k}={v!r}" for k, v in obj.get_values().items()]
+    if isinstance(obj, Container):
+        kw += [f"{k}={py_src(v)}" for k, v in obj.get_subcircuits().items()]
+    return f"E({obj.get_symbol()!r})({', '.join(kw)})"
 
 
-def finite(z):
-    return math.isfinite(z.real) and math.isfinite(z.imag)
+def fill(template, **kw):
+    """@name@ placeholders -> repr of the value (strings named src/f_lim are inserted verbatim)"""
+    for k, v in kw.items():
+        template = template.replace("@" + k + "@", v if k in ("src", "f_lim") else repr(v))
+    if "@" in template.split("# --- end of evaluator ---")[-1]:
+        raise AssertionError("harness: unfilled placeholder")
+    return template
 
 
-def rel(z, ref):
-    return abs(z - ref) / abs(ref) if ref != 0 else abs(z)
-
-
-ELEMENT_REPRO = """import numpy as np, sympy, mpmath
+PRELUDE = EVAL_SRC + """
+# --- end of evaluator ---
+import numpy as np
+from pyimpspec import Series, Parallel, Circuit
 from pyimpspec.circuit.registry import get_elements
-mpmath.mp.dps = 40
-cls = get_elements(private=True)[{sym!r}]
-p = {p!r}
-f = {f!r}
-z = complex(cls(**p).get_impedances(np.array([f]))[0])
-keys = list(p)
-fn = sympy.lambdify([sympy.Symbol(k) for k in keys] + [sympy.Symbol("f")], sympy.sympify(cls._equation), modules="mpmath")
-ref = complex(fn(*[mpmath.mpf(p[k]) for k in keys], mpmath.mpf(f)))
-assert abs(z - ref) <= {tol!r} * abs(ref), ("implementation", z, "equation", ref)
+from pyimpspec.exceptions import ImpedanceError
+E = lambda symbol: get_elements(private=True)[symbol]
+def numeric(obj, f):
+    try:
+        return complex(obj.get_impedances(np.array([f]))[0])
+    except (ImpedanceError, ZeroDivisionError, OverflowError, FloatingPointError) as ex:
+        return complex('nan')
+"""
+
+ELEMENT_REPRO = PRELUDE + """
+cls = E(@sym@)
+p = @p@
+f = @f@
+z = numeric(cls(**p), f)
+ref, _ = evaluate(sympy.sympify(cls._equation, evaluate=False), dict(p, f=f))
+assert abs(z - ref) <= @tol@ * abs(ref), ("implementation", z, "equation", ref)
+"""
+
+OBJECT_REPRO = PRELUDE + """
+obj = @src@
+f = @f@
+z = numeric(obj, f)
+ref, _ = evaluate(obj.to_sympy(substitute=True), dict(f=f))
+assert abs(z - ref) <= @tol@ * abs(ref), ("get_impedances", z, "to_sympy(substitute=True)", ref)
+"""
+
+PARITY_REPRO = PRELUDE + """
+obj = @src@
+def outcome(fn):
+    try:
+        fn()
+        return "value"
+    except NotImplementedError:
+        return "NotImplementedError"
+    except Exception as ex:
+        return "other"
+a = outcome(lambda: obj.get_impedances(np.array([1.0, 1e3])))
+b = outcome(lambda: obj.to_sympy(substitute=True))
+assert (a == "NotImplementedError") == (b == "NotImplementedError"), ("_impedance", a, "to_sympy", b)
+"""
+
+SYMPY_RAISES_REPRO = PRELUDE + """
+obj = @src@
+z = numeric(obj, @f@)
+if z == z:
+    obj.to_sympy(substitute=True)   # must not raise where the numeric impedance exists
 """
 
 
 # ------------------------------------------------------------------ part A: elements
 def run_element(args):
-    sym, n_random, seed = args
+    sym, n_random, part, parts, seed = args
     import numpy as np
     import pyimpspec  # noqa
     from pyimpspec.circuit.registry import get_elements
-    from pyimpspec.exceptions import ImpedanceError
     cls = get_elements(private=True)[sym]
-    keys, f_mp, f_np = equation_functions(cls)
+    expr = equation_expr(cls)
     ranges = param_ranges(cls)
     rng = np.random.default_rng([seed, sum(map(ord, sym))])
     F = freqs()
-    points = [("corner", p) for p in corner_params(ranges)] + [("random", sample_params(rng, ranges)) for _ in range(n_random)]
-    points.append(("default", cls.get_default_values()))
-    cases, fails, samples, worst = [], [], [], 0.0
+    points = [("corner", p) for p in corner_params(ranges)] + [("default", cls.get_default_values())]
+    points += [("random", sample_params(rng, ranges)) for _ in range(n_random)]
+    points = points[part::parts]
+    cases, fails, samples, worst, trivial = [], {}, [], 0.0, {}
+    fn = cls.__name__ + "._impedance"
     for kind, p in points:
         e = cls(**p)
-        try:
-            Z = e.get_impedances(F)
-            Zs = [complex(z) for z in Z]
-        except OVERFLOWS + (ImpedanceError,):
-            # evaluate point-wise so one overflowing frequency does not hide the others
-            Zs = []
-            for f in F:
-                try:
-                    Zs.append(complex(e.get_impedances(np.array([f]))[0]))
-                except OVERFLOWS + (ImpedanceError,):
-                    Zs.append(complex("nan"))
-        for f, z in zip(F, Zs):
+        for f in F:
             f = float(f)
-            key = (sym, kind, tuple(p.values()), f)
-            if not finite(z):
-                z_np = np_eval(f_np, keys, p, f)
-                if not finite(z_np):
-                    cases.append((key, False))      # overflow/NaN in double precision on both sides
-                    continue
+            key = (sym, tuple(p.values()), f)
+            z, exc, ex = numeric_point(e, f)
+            if exc is not None and exc.startswith("unexpected:"):
                 cases.append((key, True))
-                fails.append((f"{sym}:impedance-not-finite-where-equation-is", cls.__name__ + "._impedance",
-                              f"{sym}(**{p}) at f={f}: get_impedances gives a non-finite value/raises, the equation evaluates to {z_np} in double precision",
-                              ELEMENT_REPRO.format(sym=sym, p=p, f=f, tol=RTOL)))
+                fails.setdefault(f"{sym}:impedance:{exc}", (fn, f"{sym}(**{p}).get_impedances([{f}]) raised {exc[11:]}: {ex}", fill(ELEMENT_REPRO, sym=sym, p=p, f=f, tol=RTOL)))
                 continue
-            ref = mp_eval(f_mp, keys, p, f)
-            if not finite(ref):
-                z_np = np_eval(f_np, keys, p, f)
-                cases.append((key, False))
-                if finite(z_np):
-                    raise AssertionError(f"harness: mpmath reference not finite for {sym} {p} {f}")
-                continue
-            d = rel(z, ref)
-            cases.append((key, True))
-            worst = max(worst, d) if d <= RTOL else worst
-            if not d <= RTOL:
-                fails.append((f"{sym}:impedance!=equation", cls.__name__ + "._impedance",
-                              f"{sym}(**{p}) at f={f}: get_impedances={z} but the documented equation {cls._equation!r} evaluates to {ref} (relative difference {d:.3g} > {RTOL})",
-                              ELEMENT_REPRO.format(sym=sym, p=p, f=f, tol=RTOL)))
-            elif len(samples) < 1 and kind == "random":
-                samples.append({"element": sym, "parameters": p, "f": f, "Z": str(z), "equation": str(ref), "rel": d})
-    # keep the failure with the simplest input first (defaults/one-parameter deviations are not searched; first hit is enough)
-    return "element", sym, cases, fails[:3], samples, worst
+            verdict, ref, d = judge(z, expr, dict(p, f=f))
+            cases.append((key, not verdict.startswith("trivial")))
+            if verdict.startswith("trivial"):
+                trivial[verdict[8:]] = trivial.get(verdict[8:], 0) + 1
+            elif verdict == "pass":
+                worst = max(worst, d)
+                if not samples and kind == "random":
+                    samples.append({"element": sym, "parameters": p, "f": f, "Z": str(z), "equation": str(ref), "rel": d})
+            elif verdict == "mismatch":
+                fails.setdefault(f"{sym}:impedance!=equation", (
+                    fn, f"{sym}(**{p}) at f={f}: get_impedances={z} but the documented equation {cls._equation!r} evaluates to {ref} (relative difference {d:.3g} > {RTOL})",
+                    fill(ELEMENT_REPRO, sym=sym, p=p, f=f, tol=RTOL)))
+            else:
+                fails.setdefault(f"{sym}:impedance-not-finite-where-equation-is", (
+                    fn, f"{sym}(**{p}) at f={f}: get_impedances raises/returns a non-finite value ({exc}) although every intermediate result of the documented equation lies inside the double range; equation = {ref}",
+                    fill(ELEMENT_REPRO, sym=sym, p=p, f=f, tol=RTOL)))
+    return "element", sym, cases, [(k,) + v for k, v in fails.items()], samples, worst, trivial
 
 
 # ------------------------------------------------------------------ part B: Tlm configurations
@@ -207,110 +309,73 @@ def tlm_subcircuit(kind, slot, variant, rng):
     raise AssertionError(slot)
 
 
-SLOTS = ("X_1", "X_2", "Z_A", "Z_B", "Zeta")
-
-TLM_REPRO = """import numpy as np, sympy, mpmath, pyimpspec
-mpmath.mp.dps = 40
-c = pyimpspec.parse_cdc({cdc!r})
-tlm = c.get_elements(recursive=False)[0]
-F = np.logspace(-6, 9, 7)
-def outcome(fn):
+def compare_object(obj, label, fn_name, keyprefix, base_key):
+    """numeric impedance of obj against obj.to_sympy(substitute=True) at the 7 frequencies.
+    returns (cases, fails{key: (fn, what, repro)}, worst, trivial-counts, outcome, culprit-frequency)"""
+    import sympy
+    F = [float(f) for f in freqs()]
+    cases, fails, trivial, worst = [], {}, {}, 0.0
+    src = py_src(obj)
+    numeric = [numeric_point(obj, f) for f in F]
+    for z, exc, ex in numeric:
+        if exc is not None and exc.startswith("unexpected:"):
+            fails.setdefault(f"{keyprefix}:numeric:{exc}", (fn_name, f"{label}: get_impedances raised {exc[11:]}: {ex}", fill(OBJECT_REPRO, src=src, f=F[0], tol=RTOL)))
+    num_ni = all(exc == "NotImplementedError" for _, exc, _ in numeric)
+    if not num_ni and any(exc == "NotImplementedError" for _, exc, _ in numeric):
+        raise AssertionError("harness: NotImplementedError depends on the frequency")
+    expr = sym_exc = sym_ex = None
     try:
-        return ("ok", fn())
+        expr = obj.to_sympy(substitute=True)
     except NotImplementedError:
-        return ("NotImplementedError", None)
-num = outcome(lambda: tlm.get_impedances(F))
-symb = outcome(lambda: tlm.to_sympy(substitute=True))
-assert num[0] == symb[0], ("numeric", num[0], "symbolic", symb[0])
-if num[0] == "ok":
-    fn = sympy.lambdify([sympy.Symbol("f")], symb[1], modules="mpmath")
-    for f, z in zip(F, num[1]):
-        ref = complex(fn(mpmath.mpf(float(f))))
-        assert abs(complex(z) - ref) <= {tol!r} * abs(ref), (f, z, ref)
-"""
-
-
-def classify_exception(ex):
-    from pyimpspec.exceptions import ImpedanceError
-    if isinstance(ex, NotImplementedError):
-        return "NotImplementedError"
-    if isinstance(ex, ImpedanceError):
-        return type(ex).__name__
-    return "unexpected:" + type(ex).__name__
+        sym_exc = "NotImplementedError"
+    except Exception as ex:  # noqa
+        sym_exc, sym_ex = type(ex).__name__, ex
+    if num_ni != (sym_exc == "NotImplementedError"):
+        fails.setdefault(f"{keyprefix}:NotImplementedError-parity", (fn_name, f"{label}: _impedance -> {'NotImplementedError' if num_ni else 'no NotImplementedError'}, to_sympy -> {sym_exc or 'expression'}", fill(PARITY_REPRO, src=src)))
+        return [(base_key, True)], fails, worst, trivial, "parity-violated"
+    if num_ni:
+        return [(base_key, True)], fails, worst, trivial, "NotImplementedError in both"
+    if fails:
+        return [(base_key, True)], fails, worst, trivial, "unexpected exception"
+    if sym_exc is not None:
+        good = [f for f, (z, exc, _) in zip(F, numeric) if finite(z)]
+        if good:
+            fails.setdefault(f"{keyprefix}:to_sympy-raises-{sym_exc}-where-numeric-finite", ("Container.to_sympy", f"{label}: to_sympy(substitute=True) raised {sym_exc} ({sym_ex}) although get_impedances returns finite values", fill(SYMPY_RAISES_REPRO, src=src, f=good[0])))
+            return [(base_key, True)], fails, worst, trivial, "symbolic raises"
+        return [(base_key, True)], fails, worst, trivial, f"undefined in both (numeric {numeric[0][1]}, symbolic {sym_exc})"
+    if not {s.name for s in expr.free_symbols} <= {"f"}:
+        fails.setdefault(f"{keyprefix}:symbolic-free-symbols-left", ("Container.to_sympy", f"{label}: to_sympy(substitute=True) still contains {expr.free_symbols}", fill(OBJECT_REPRO, src=src, f=F[0], tol=RTOL)))
+        return [(base_key, True)], fails, worst, trivial, "free symbols"
+    bad_f = None
+    for f, (z, exc, _) in zip(F, numeric):
+        verdict, ref, d = judge(z, expr, {"f": f})
+        cases.append((base_key + (f,), not verdict.startswith("trivial")))
+        if verdict.startswith("trivial"):
+            trivial[verdict[8:]] = trivial.get(verdict[8:], 0) + 1
+        elif verdict == "pass":
+            worst = max(worst, d)
+        elif verdict == "mismatch":
+            bad_f = bad_f or f
+            fails.setdefault(f"{keyprefix}:impedance!=to_sympy", (fn_name, f"{label} at f={f}: get_impedances={z}, to_sympy(substitute=True)={ref} (relative {d:.3g} > {RTOL})", fill(OBJECT_REPRO, src=src, f=f, tol=RTOL)))
+        else:
+            bad_f = bad_f or f
+            fails.setdefault(f"{keyprefix}:impedance-not-finite-where-to_sympy-is", (fn_name, f"{label} at f={f}: get_impedances raises {exc} although to_sympy(substitute=True) = {ref} is evaluated without leaving the double range", fill(OBJECT_REPRO, src=src, f=f, tol=RTOL)))
+    return cases, fails, worst, trivial, "evaluated" if bad_f is None else ("differs", bad_f)
 
 
 def run_tlm(args):
     config, variant, L, seed = args
     import numpy as np
-    import sympy
-    import mpmath
     import pyimpspec  # noqa
-    from pyimpspec import Series, Circuit
     from pyimpspec.circuit.registry import get_elements
-    mpmath.mp.dps = DPS
     Tlm = get_elements(private=True)["Tlm"]
     rng = np.random.default_rng([seed, variant, sum(i * 3 ** n for n, i in enumerate(map(("open", "short", "finite").index, config)))])
-    subs = {slot: tlm_subcircuit(kind, slot, variant, rng) for slot, kind in zip(SLOTS, config)}
-    tlm = Tlm(L=L, **subs)
-    cdc = Circuit(Series([tlm])).serialize(17)
-    F = freqs()
-    key = ("tlm", config, variant, L)
+    tlm = Tlm(L=L, **{slot: tlm_subcircuit(kind, slot, variant, rng) for slot, kind in zip(SLOTS, config)})
     cfg = "/".join(f"{s}={k}" for s, k in zip(SLOTS, config))
-    fails = []
-    num_exc = sym_exc = None
-    Z = expr = None
-    try:
-        Z = tlm.get_impedances(F)
-    except Exception as ex:  # noqa
-        num_exc = classify_exception(ex)
-    try:
-        expr = tlm.to_sympy(substitute=True)
-    except Exception as ex:  # noqa
-        sym_exc = classify_exception(ex)
-    repro = TLM_REPRO.format(cdc=cdc, tol=RTOL)
-    fn_name = "TransmissionLineModel._impedance"
-    if (num_exc == "NotImplementedError") != (sym_exc == "NotImplementedError"):
-        fails.append(("Tlm:NotImplementedError-parity", fn_name, f"Tlm {cfg}: _impedance -> {num_exc or 'value'}, to_sympy -> {sym_exc or 'expression'}", repro))
-        return "tlm", cfg, [(key, True)], fails, [], 0.0
-    if num_exc == "NotImplementedError":
-        return "tlm", cfg, [(key, True)], fails, [{"Tlm": cfg, "outcome": "NotImplementedError in both"}], 0.0
-    for which, exc in (("numeric", num_exc), ("symbolic", sym_exc)):
-        if exc is not None and exc.startswith("unexpected:"):
-            fails.append((f"Tlm:{which}:{exc}", fn_name if which == "numeric" else "TransmissionLineModel._sympy", f"Tlm {cfg}: {which} evaluation raised {exc}", repro))
-    if fails:
-        return "tlm", cfg, [(key, True)], fails, [], 0.0
-    if sym_exc is not None:
-        fails.append((f"Tlm:symbolic-raises-{sym_exc}", "TransmissionLineModel._sympy", f"Tlm {cfg}: to_sympy raised {sym_exc}, numeric {'raised ' + num_exc if num_exc else 'returned values'}", repro))
-        return "tlm", cfg, [(key, True)], fails, [], 0.0
-    free = expr.free_symbols
-    if not free <= {sympy.Symbol("f")}:
-        fails.append(("Tlm:symbolic-free-symbols-left", "Container.to_sympy", f"Tlm {cfg}: to_sympy(substitute=True) still contains {free}", repro))
-        return "tlm", cfg, [(key, True)], fails, [], 0.0
-    fn = sympy.lambdify([sympy.Symbol("f")], expr, modules="mpmath")
-    refs = []
-    for f in F:
-        try:
-            refs.append(complex(fn(mpmath.mpf(float(f)))))
-        except (ZeroDivisionError, OverflowError, ValueError, TypeError):
-            refs.append(complex("nan"))
-    if num_exc is not None:
-        # numeric evaluation refused with an impedance error: the symbolic value must not be finite either
-        if all(finite(r) for r in refs):
-            fails.append((f"Tlm:numeric-{num_exc}-where-symbolic-finite", fn_name,
-                          f"Tlm {cfg}: get_impedances raised {num_exc} although to_sympy(substitute=True) evaluates to finite values {refs[:2]}...", repro))
-        return "tlm", cfg, [(key, True)], fails, [], 0.0
-    worst = 0.0
-    for f, z, ref in zip(F, Z, refs):
-        z = complex(z)
-        if not finite(ref):
-            fails.append(("Tlm:symbolic-not-finite-where-numeric-is", "TransmissionLineModel._sympy", f"Tlm {cfg} f={f}: numeric {z}, symbolic {ref}", repro))
-            break
-        d = rel(z, ref)
-        if not d <= RTOL:
-            fails.append(("Tlm:impedance!=to_sympy", fn_name, f"Tlm {cfg} L={L} f={f}: get_impedances={z}, to_sympy(substitute=True)={ref} (relative {d:.3g})", repro))
-            break
-        worst = max(worst, d)
-    return "tlm", cfg, [(key, True)], fails, [{"Tlm": cfg, "L": L, "rel": worst}], worst
+    cases, fails, worst, trivial, outcome = compare_object(tlm, f"Tlm[{cfg}, L={L}]", "TransmissionLineModel._impedance", "Tlm", ("tlm", config, variant))
+    if isinstance(outcome, tuple):
+        outcome = "differs"
+    return "tlm", outcome, cases, [(k,) + v for k, v in fails.items()], [{"Tlm": cfg, "L": L, "outcome": outcome, "worst_rel": worst}], worst, trivial
 
 
 # ------------------------------------------------------------------ part C: circuits
@@ -350,98 +415,63 @@ def random_circuit(rng, syms, classes, max_leaves):
     return top if isinstance(top, Series) else Series([top])
 
 
-CIRCUIT_REPRO = """import numpy as np, sympy, mpmath, pyimpspec
-mpmath.mp.dps = 40
-c = pyimpspec.parse_cdc({cdc!r})
-F = np.logspace(-6, 9, 7)
-Z = c.get_impedances(F)
-fn = sympy.lambdify([sympy.Symbol("f")], c.to_sympy(substitute=True), modules="mpmath")
-for f, z in zip(F, Z):
-    ref = complex(fn(mpmath.mpf(float(f))))
-    assert abs(complex(z) - ref) <= {tol!r} * abs(ref), (f, z, ref)
-"""
-
-
 def run_circuit(args):
     index, seed, max_leaves = args
     import numpy as np
-    import sympy
-    import mpmath
     import pyimpspec  # noqa
-    from pyimpspec import Circuit
     from pyimpspec.circuit.registry import get_elements
-    from pyimpspec.exceptions import ImpedanceError
-    mpmath.mp.dps = DPS
     classes = get_elements(private=True)
-    syms = sorted(classes)
     rng = np.random.default_rng([seed, 7, index])
-    circuit = Circuit(random_circuit(rng, syms, classes, max_leaves))
-    cdc = circuit.serialize(17)
-    basic = circuit.to_string()
-    F = freqs()
-    key = ("circuit", cdc)
-    fails = []
-    try:
-        Z = circuit.get_impedances(F)
-    except (ImpedanceError, NotImplementedError):
-        return "circuit", basic, [(key, False)], fails, [], 0.0
-    expr = circuit.to_sympy(substitute=True)
-    if not expr.free_symbols <= {sympy.Symbol("f")}:
-        fails.append(("circuit:symbolic-free-symbols-left", "Circuit.to_sympy", f"{cdc}: to_sympy(substitute=True) still contains {expr.free_symbols}", CIRCUIT_REPRO.format(cdc=cdc, tol=RTOL)))
-        return "circuit", basic, [(key, True)], fails, [], 0.0
-    fn = sympy.lambdify([sympy.Symbol("f")], expr, modules="mpmath")
-    worst = 0.0
-    for f, z in zip(F, Z):
-        z = complex(z)
-        ref = complex(fn(mpmath.mpf(float(f))))
-        d = rel(z, ref)
-        if d <= RTOL:
-            worst = max(worst, d)
-            continue
-        # attribute the difference: which leaf disagrees with its own equation at this frequency?
-        culprits = set()
-        for e in circuit.get_elements(recursive=True):
-            try:
-                ze = complex(e.get_impedances(np.array([f]))[0])
-                efn = sympy.lambdify([sympy.Symbol("f")], e.to_sympy(substitute=True), modules="mpmath")
-                re_ = complex(efn(mpmath.mpf(float(f))))
-            except Exception:  # noqa
+    con = random_circuit(rng, sorted(classes), classes, max_leaves)
+    basic = con.to_string()
+    # the Circuit wrapper is what the property names; Series is its only state
+    from pyimpspec import Circuit
+    circuit = Circuit(con)
+    cases, fails, worst, trivial, outcome = compare_object(_CircuitView(circuit, con), f"Circuit {con.to_string(6)}", "Connection.to_sympy", "circuit", ("circuit", index))
+    out = []
+    for key, (fn, what, repro) in fails.items():
+        if isinstance(outcome, tuple) and key in ("circuit:impedance!=to_sympy", "circuit:impedance-not-finite-where-to_sympy-is"):
+            # attribute the difference: which leaf disagrees with its own expression at that frequency?
+            f = outcome[1]
+            culprits = set()
+            for e in con.get_elements(recursive=True):
+                z, exc, _ = numeric_point(e, f)
+                try:
+                    verdict, _, _ = judge(z, e.to_sympy(substitute=True), {"f": f})
+                except Exception:  # noqa
+                    continue
+                if verdict in ("mismatch", "not-finite"):
+                    culprits.add(e.get_symbol())
+            if culprits:
+                for s in sorted(culprits):
+                    out.append((f"{s}:{key.split(':', 1)[1].replace('to_sympy', 'equation')}:in-circuit", classes[s].__name__ + "._impedance", what + f"; element {s} differs from its own expression", repro))
                 continue
-            if not rel(ze, re_) <= RTOL:
-                culprits.add(e.get_symbol())
-        what = f"{cdc} at f={f}: get_impedances={z}, to_sympy(substitute=True)={ref} (relative {d:.3g})"
-        if culprits:
-            for s in sorted(culprits):
-                fails.append((f"{s}:impedance!=equation:in-circuit", classes[s].__name__ + "._impedance", what + f"; element {s} differs from its own expression", CIRCUIT_REPRO.format(cdc=cdc, tol=RTOL)))
-        else:
-            fails.append(("circuit:impedance!=to_sympy:composition", "Connection.to_sympy", what, CIRCUIT_REPRO.format(cdc=cdc, tol=RTOL)))
-        break
-    return "circuit", basic, [(key, True)], fails, [{"circuit": basic, "rel": worst}], worst
+            key += ":composition"
+        out.append((key, fn, what, repro))
+    if isinstance(outcome, tuple):
+        outcome = "differs"
+    return "circuit", outcome, cases, out, [{"circuit": basic, "outcome": outcome, "worst_rel": worst}], worst, trivial
 
 
 # ------------------------------------------------------------------ part D: limits
-LIMIT_REPRO = """import numpy as np, mpmath, sympy
-from pyimpspec.circuit.registry import get_elements
-e = get_elements(private=True)[{sym!r}]()
-lim = complex(e.get_impedances(np.array([{f_lim}]))[0])
-near = complex(e.get_impedances(np.array([{f_near!r}]))[0])
-scale = abs(complex(e.get_impedances(np.array([1.0]))[0]))
-if {to_zero!r}:
-    assert abs(lim) <= {tol!r} * scale, (lim, near)
+LIMIT_REPRO = PRELUDE + """
+e = E(@sym@)()
+lim = complex(e.get_impedances(np.array([@f_lim@]))[0])
+near = numeric(e, @f_near@)
+scale = abs(numeric(e, 1.0))
+if @to_zero@:
+    assert abs(lim) <= @tol@ * scale, (lim, near)
 else:
-    assert abs(lim - near) <= {tol!r} * abs(near), (lim, near)
+    assert abs(lim - near) <= @tol@ * abs(near), (lim, near)
 """
 
 
 def run_limit(args):
     sym, which = args
     import numpy as np
-    import mpmath
     import pyimpspec  # noqa
     from pyimpspec.circuit.registry import get_elements
     from pyimpspec.circuit.base import Container
-    from pyimpspec.exceptions import ImpedanceError
-    mpmath.mp.dps = DPS
     cls = get_elements(private=True)[sym]
     e = cls()
     f_lim = 0.0 if which == "0" else INF
@@ -449,40 +479,30 @@ def run_limit(args):
     key = ("limit", sym, which)
     try:
         lim = complex(e.get_impedances(np.array([f_lim]))[0])
-    except (ImpedanceError, NotImplementedError):
-        return "limit", sym, [(key, False)], [], [], 0.0
+    except Exception as ex:  # noqa  - nothing is reported: outside the clause "wherever a finite limit is reported"
+        return "limit", "not reported: " + type(ex).__name__, [(key, False)], [], [], 0.0, {}
     if not finite(lim):
-        return "limit", sym, [(key, True)], [(f"{sym}:limit:f={which}:non-finite-returned", "_calculate_limit", f"{sym}().get_impedances([{f_lim}]) returned {lim}", "raise SystemExit(1)")], [], 0.0
-    # does the documented expression converge there?  evaluate it with mpmath far beyond double range
-    if issubclass(cls, Container):
-        import sympy
-        fn = sympy.lambdify([sympy.Symbol("f")], e.to_sympy(substitute=True), modules="mpmath")
-        ev = lambda f: complex(fn(f))  # noqa: E731
-    else:
-        keys, f_mp, _ = equation_functions(cls)
-        p = e.get_values()
-        ev = lambda f: complex(f_mp(*[mpmath.mpf(p[k]) for k in keys], f))  # noqa: E731
+        return "limit", "reported", [(key, True)], [(f"{sym}:limit:f={which}:non-finite-returned", "_calculate_limit", f"{sym}().get_impedances([{f_lim}]) returned {lim}", "raise SystemExit(1)")], [], 0.0, {}
+    expr = e.to_sympy(substitute=True) if issubclass(cls, Container) else equation_expr(cls)
+    values = {} if issubclass(cls, Container) else e.get_values()
+    import mpmath
     step = mpmath.mpf(10) ** (-12 if which == "0" else 15)
-    try:
-        z1, z2, z3 = ev(step), ev(step ** 2), ev(step ** 3)
-        scale = abs(ev(mpmath.mpf(1)))
-    except (ZeroDivisionError, OverflowError, ValueError):
-        return "limit", sym, [(key, False)], [], [], 0.0
-    near = complex(e.get_impedances(np.array([f_near]))[0])
-    repro = lambda to_zero: LIMIT_REPRO.format(sym=sym, f_lim="0.0" if which == "0" else "float('inf')", f_near=f_near, tol=LIMIT_RTOL, to_zero=to_zero)  # noqa: E731
+    z1, z2, z3 = (evaluate(expr, dict(values, f=step ** k))[0] for k in (1, 2, 3))
+    scale = abs(evaluate(expr, dict(values, f=1.0))[0])
+    near = numeric_point(e, f_near)[0]
+    repro = lambda to_zero: fill(LIMIT_REPRO, sym=sym, f_lim="0.0" if which == "0" else "float('inf')", f_near=f_near, tol=LIMIT_RTOL, to_zero=to_zero)  # noqa: E731
+    sample = [{"limit": sym, "f": which, "reported": str(lim), "near": str(near)}]
     fails = []
-    if abs(z3) <= 1e-3 * abs(z2) <= 1e-6 * abs(z1) and abs(z1) <= LIMIT_RTOL * scale:
-        # tends to zero
+    if all(map(finite, (z1, z2, z3))) and abs(z3) <= 1e-3 * abs(z2) <= 1e-6 * abs(z1) and abs(z1) <= LIMIT_RTOL * scale:
         if not abs(lim) <= LIMIT_RTOL * scale:
-            fails.append((f"{sym}:limit:f={which}:not-continuous-extension", "_calculate_limit", f"{sym}() at f->{f_lim}: reported {lim}, finite-frequency values tend to 0 ({z1}, {z2}, {z3})", repro(True)))
-        return "limit", sym, [(key, True)], fails, [{"limit": sym, "f": which, "reported": str(lim), "near": str(near)}], abs(lim) / scale
-    if finite(z2) and finite(z3) and abs(z2 - z3) <= 1e-7 * abs(z3) and abs(z1 - z3) <= 1e-7 * abs(z3):
+            fails.append((f"{sym}:limit:f={which}:not-continuous-extension", "_calculate_limit", f"{sym}() at f->{f_lim}: reported {lim}, but the finite-frequency values tend to 0 ({z1}, {z2}, {z3})", repro(True)))
+        return "limit", "reported, tends to 0", [(key, True)], fails, sample, abs(lim) / scale, {}
+    if all(map(finite, (z1, z2, z3, near))) and abs(z2 - z3) <= 1e-7 * abs(z3) and abs(z1 - z3) <= 1e-7 * abs(z3):
         d = rel(lim, near)
         if not d <= LIMIT_RTOL:
-            fails.append((f"{sym}:limit:f={which}:not-continuous-extension", "_calculate_limit", f"{sym}() at f->{f_lim}: reported {lim}, value at f={f_near} is {near} (relative {d:.3g}); the expression converges to {z3}", repro(False)))
-        return "limit", sym, [(key, True)], fails, [{"limit": sym, "f": which, "reported": str(lim), "near": str(near)}], d
-    # the expression does not converge at this scale (slow convergence): outside the comparison's validity
-    return "limit", sym, [(key, False)], [], [], 0.0
+            fails.append((f"{sym}:limit:f={which}:not-continuous-extension", "_calculate_limit", f"{sym}() at f->{f_lim}: reported {lim}, value at f={f_near} is {near} (relative {d:.3g} > {LIMIT_RTOL}); the expression converges to {z3}", repro(False)))
+        return "limit", "reported, converged", [(key, True)], fails, sample, d, {}
+    return "limit", "reported, not converged at 1e-12/1e15 (not compared)", [(key, False)], [], sample, 0.0, {}
 
 
 def dispatch(task):
@@ -498,51 +518,54 @@ def main(a):
     thorough = a.tier != "quick"
     n_random = 1500 if thorough else 100
     n_circuits = 400 if thorough else 50
+    max_leaves = 4 if thorough else 3
     variants = [(0, 1.0), (1, 0.3), (2, 2.5)] if thorough else [(0, 1.0)]
-    chunks = 10 if thorough else 1
+    chunks = 16 if thorough else 4
     tasks = []
     for sym, cls in classes.items():
         if issubclass(cls, Container):
             continue
         for c in range(chunks):
-            tasks.append(("element", (sym, n_random // chunks, a.seed * 1000 + c)))
+            tasks.append(("element", (sym, n_random, c, chunks, a.seed)))
     for config in itertools.product(("open", "short", "finite"), repeat=5):
         for variant, L in variants:
             tasks.append(("tlm", (config, variant, L, a.seed)))
     for i in range(n_circuits):
-        tasks.append(("circuit", (i, a.seed, 4 if thorough else 3)))
+        tasks.append(("circuit", (i, a.seed, max_leaves)))
     for sym in classes:
         for which in ("0", "inf"):
             tasks.append(("limit", (sym, which)))
-    # heavy symbolic tasks first
-    order = {"limit": 0, "circuit": 1, "element": 2, "tlm": 3}
+    order = {"limit": 0, "circuit": 1, "element": 2, "tlm": 3}      # slow symbolic tasks first
     tasks.sort(key=lambda t: order[t[0]])
+    n_el = sum(1 for c in classes.values() if not issubclass(c, Container))
     res = Result(
         "C02",
-        f"{sum(1 for c in classes.values() if not issubclass(c, Container))} element classes x (all box corners + {n_random} log-uniform parameter vectors + defaults) x {N_FREQ} frequencies 1e-6..1e9 Hz; "
-        f"Tlm in all 243 open/short/finite configurations of its 5 sub-circuits x {len(variants)} sub-circuit variants; {n_circuits} random circuits <= {4 if thorough else 3} leaves over all {len(classes)} classes; "
-        f"f=0 and f=inf limits of all {len(classes)} classes at default parameters",
-        "per class: corners of the finite sampling box (infinite limits replaced by 1e12, zero lower limits by 1e-12, exponents in [0.02, 1]) and seeded log-uniform draws; reference = mpmath (40 digits) evaluation of the "
-        f"sympified `_equation`, relative tolerance {RTOL}; a point is trivial when both the implementation and the double-precision equation overflow; distinct = (class, parameter vector, frequency); Tlm: distinct = configuration x variant; "
-        f"limits: compared with f=1e-12/1e15 where the expression has converged (relative {LIMIT_RTOL})")
-    stats = {"element": [0, 0, 0.0], "tlm": [0, 0, 0.0], "circuit": [0, 0, 0.0], "limit": [0, 0, 0.0]}
-    tlm_outcomes = {"NotImplementedError in both": 0, "evaluated": 0}
+        f"{n_el} element classes x (all box corners + defaults + {n_random} log-uniform parameter vectors) x {N_FREQ} frequencies 1e-6..1e9 Hz; "
+        f"Tlm in all 243 open/short/finite configurations of its 5 sub-circuits (contains the 36 with X_1, X_2 not open and Zeta finite) x {len(variants)} sub-circuit variants; "
+        f"{n_circuits} random circuits <= {max_leaves} leaves over all {len(classes)} classes; f=0 and f=inf limits of all {len(classes)} classes at default parameters",
+        "per class: corners of the finite sampling box (infinite limits replaced by 1e12, zero lower limits by 1e-12, exponents in [0.02, 1], unlimited parameters +-[1e-9, 1e9]) and seeded log-uniform draws; "
+        f"reference = mpmath evaluation (precision doubled until stable) of the sympified `_equation` resp. of to_sympy(substitute=True), relative tolerance {RTOL}; a point is trivial when the double range is exhausted "
+        f"(implementation not finite and the reference or one of its intermediate results outside [1e-300, 1e300]) or when the condition number of the expression exceeds {ILL_CONDITIONED:g}; "
+        f"distinct = (class, parameter vector, frequency) / (Tlm configuration, variant, frequency) / (circuit, frequency); limits: compared with f=1e-12/1e15 where the expression has converged (relative {LIMIT_RTOL})")
+    stats = {p: {"evaluations": 0, "nontrivial": 0, "worst_passing_relative_difference": 0.0, "trivial": {}, "outcomes": {}} for p in order}
     with mp.get_context("fork").Pool(16) as pool:
-        for part, name, cases, fails, samples, worst in pool.imap_unordered(dispatch, tasks, chunksize=1):
+        for part, outcome, cases, fails, samples, worst, trivial in pool.imap_unordered(dispatch, tasks, chunksize=1):
+            st = stats[part]
             for key, nontrivial in cases:
                 res.case(key, nontrivial=nontrivial)
-                stats[part][0] += 1
-                stats[part][1] += 1 if nontrivial else 0
-            stats[part][2] = max(stats[part][2], worst)
-            if len(res.samples) < 12 and samples and (part != "element" or len(res.samples) < 6):
+                st["evaluations"] += 1
+                st["nontrivial"] += 1 if nontrivial else 0
+            st["worst_passing_relative_difference"] = max(st["worst_passing_relative_difference"], worst)
+            for k, v in trivial.items():
+                st["trivial"][k] = st["trivial"].get(k, 0) + v
+            if part != "element":
+                st["outcomes"][outcome] = st["outcomes"].get(outcome, 0) + 1
+            if samples and len(res.samples) < 12 and sum(1 for s in res.samples if next(iter(s)) == next(iter(samples[0]))) < 3:
                 res.samples.append(samples[0])
-            if part == "tlm" and samples:
-                tlm_outcomes["NotImplementedError in both" if "outcome" in samples[0] else "evaluated"] += 1
             for key, fn, what, repro in fails:
                 res.fail(key, fn, what, repro)
-    for part, (n, nt, worst) in stats.items():
-        res.part(part, evaluations=n, nontrivial=nt, worst_passing_relative_difference=worst)
-    res.part("tlm_outcomes", **tlm_outcomes)
+    for part, st in stats.items():
+        res.part(part, **st)
     return res
 
 
